@@ -257,7 +257,7 @@ def run(tier, seed):
     o.assumptions = ['non-recursive targets (exact carriers); schedules sampled by TLC -simulate from the builder machine',
                      'gradient and viterbi-weight invariance are covered through C03/C04 oracles on presented grammars']
     rng = rng_for(seed, 'c12')
-    ntargets, nsched = (14, 10) if tier == 'quick' else (120, 40)
+    ntargets, nsched = (14, 10) if tier == 'quick' else (60, 25)
     jobs = []
     with Scratch() as work:
         for ti in range(ntargets):
@@ -290,7 +290,7 @@ def run(tier, seed):
         if any(v.get('v') == 'SPEC-INCONSISTENT' for v in verdicts.values()):
             raise MachineryFailure('model-level theorem Z(presented) = permuted Z(original) failed: specification or presentation generator is wrong')
         o.absorb_verdicts(cases, verdicts, load_findings())
-        nrec, kpres = (16, 4) if tier == 'quick' else (150, 6)
+        nrec, kpres = (16, 4) if tier == 'quick' else (100, 5)
         rcases = [c for cs in pmap(drive_recursive, [(seed, i, kpres) for i in range(nrec)], chunksize=1) for c in cs]
         rv, st, tr, _ = judge_batch(work / 'rjudge', 'Trace_Recursive', rcases, per_shard_min=4, heap='3g')
         o.states += st
